@@ -88,6 +88,13 @@ pub trait SimRuntime {
     fn connect(&self, address: &str) -> io::Result<(SimStream, SocketAddr, SocketAddr)>;
     /// The simulated process is dying: destructors must not spawn or touch files.
     fn is_dead(&self) -> bool;
+    /// An HTTP request of the SDK's `HttpClient`, answered in-process by the simulated server.
+    fn http_call(
+        &self,
+        _request: reqwest::Request,
+    ) -> Pin<Box<dyn Future<Output = Result<reqwest::Response, String>>>> {
+        Box::pin(async { Err("no simulated HTTP server".to_string()) })
+    }
 }
 
 thread_local! {
@@ -113,6 +120,30 @@ pub fn now_micros() -> Option<u64> {
 
 pub fn connect(address: &str) -> Option<io::Result<(SimStream, SocketAddr, SocketAddr)>> {
     runtime().map(|r| r.connect(address))
+}
+
+/// A simulator future handed to code whose callers demand `Send` futures (`async_trait`). The
+/// simulator is single-threaded, nothing ever moves to another thread.
+pub struct AssertSend<F: ?Sized>(Pin<Box<F>>);
+
+unsafe impl<F: ?Sized> Send for AssertSend<F> {}
+
+impl<F: Future + ?Sized> Future for AssertSend<F> {
+    type Output = F::Output;
+    fn poll(mut self: Pin<&mut Self>, cx: &mut Context<'_>) -> Poll<F::Output> {
+        self.0.as_mut().poll(cx)
+    }
+}
+
+/// Routes a request of the SDK's `HttpClient` to the simulated server.
+#[allow(clippy::type_complexity)]
+pub fn http_call(
+    request: reqwest::Request,
+) -> AssertSend<dyn Future<Output = Result<reqwest::Response, String>>> {
+    match runtime() {
+        Some(runtime) => AssertSend(runtime.http_call(request)),
+        None => AssertSend(Box::pin(async { Err("no simulator installed".to_string()) })),
+    }
 }
 
 /// A future that returns `Pending` once (after waking itself) when the simulator says so.
